@@ -28,7 +28,7 @@ ASSUMPTIONS = [
 ]
 ANCHORS = ['Table.filter', 'Table.remove_empty', 'Table.head']
 REQUIRED = ['tables_with_bytes_category_names', 'tables_with_non_finite_values', 'predicate_calls_checked', 'filter_by_ids', 'filter_by_predicate',
-            'remove_empty_calls', 'head_calls', 'unknown_id_refused',
+            'predicate_reads_the_table', 'remove_empty_at_count_limits', 'remove_empty_calls', 'head_calls', 'unknown_id_refused',
             'layout_unsorted_seen', 'layout_csc_seen']
 
 _SMALL_SHAPES = [(1, 1), (1, 2), (2, 1), (1, 3), (3, 1), (2, 2), (2, 3),
@@ -343,6 +343,24 @@ def run_random(ctx, index):
         desc = dict(desc0, op='filter', pred=name, axis=axis, invert=invert,
                     inplace=inplace, layout=st)
         pred, log = make_tap(ctx, spec, axis, f)
+        other_ax = 'observation' if axis == 'sample' else 'sample'
+        if not inplace and r.random() < .2 and spec.ids(other_ax):
+            # a predicate that looks something up in the table it is asked
+            # about (reading only) gets the same vectors and the same answer
+            inner, oid = pred, spec.ids(other_ax)[0]
+            look = r.choice(['other-axis-vector', 'other-axis-sum',
+                             'same-axis-vector'])
+            desc['predicate_reads_the_table'] = look
+
+            def pred(v, i, m):
+                if look == 'other-axis-vector':
+                    t.data(oid, axis=other_ax, dense=True)
+                elif look == 'other-axis-sum':
+                    t.sum(axis=other_ax)
+                else:
+                    t.data(i, axis=axis, dense=False)
+                return inner(v, i, m)
+            ctx.count('predicate_reads_the_table')
         res = t.filter(pred, axis=axis, invert=invert, inplace=inplace)
         check_tap(ctx, log, spec, axis, desc)
         ctx.count('filter_by_predicate')
@@ -479,6 +497,7 @@ def stress(ctx):
     from vm.checks import _stress
     _stress.stress_filter(ctx, ctx.rng('stress'))
     scale(ctx)
+    scale_counts(ctx)
 
 
 def scale(ctx):
@@ -524,6 +543,64 @@ def scale(ctx):
                     if d:
                         raise Violation('C08/unknown-id-changed-table',
                                         '%s; %r' % ('; '.join(d), desc))
+        ctx.case(desc, True)
+
+
+def scale_counts(ctx):
+    """remove_empty on vectors whose number of non-zero cells sits at the
+    limits of the small integer types (a count kept in too narrow a type
+    wraps to 0 there): 255 / 256 / 257 / 512 / 65535 / 65536 / 65537 cells,
+    next to empty vectors and one-cell vectors; values of both signs, some
+    vectors summing to zero."""
+    import scipy.sparse as sp
+    r = ctx.rng('scale-counts')
+    counts = [0, 1, 255, 256, 257, 0, 512, 768, 65535, 65536, 65537, 2]
+    L = 65540
+    for axis in ('sample', 'observation'):
+        order = list(counts)
+        r.shuffle(order)
+        rows, cols, vals = [], [], []
+        for j, c in enumerate(order):
+            pos = sorted(r.sample(range(L), c))
+            v = [r.choice([1.0, 2.0, -1.0, 0.5]) for _ in pos]
+            if c and c % 2 == 0 and j % 2:
+                v = [1.0, -1.0] * (c // 2)          # sums to zero
+            rows += pos
+            cols += [j] * c
+            vals += v
+        M = sp.coo_matrix((vals, (rows, cols)), shape=(L, len(order)))
+        long_ids = ['v%05d' % i for i in range(L)]
+        short_ids = ['c%d_%d' % (j, c) for j, c in enumerate(order)]
+        if axis == 'sample':
+            t = ctx.biom.Table(M.tocsr(), long_ids, short_ids)
+        else:
+            t = ctx.biom.Table(M.T.tocsr(), short_ids, long_ids)
+        desc = {'scale': 'non-zero counts %r along %s' % (order, axis)}
+        want = [i for i, c in zip(short_ids, order) if c]
+        for layout in ('csr', 'csc'):
+            for inplace in (False, True):
+                u = t.copy()
+                if layout == 'csc':
+                    u.data(u.ids()[0], axis='sample')   # leaves CSC behind
+                    if not gen.layout_state(u).startswith('csc'):
+                        continue
+                res = u.remove_empty(axis=axis, inplace=inplace)
+                got = [str(i) for i in res.ids(axis=axis)]
+                if got != want:
+                    raise Violation('C08/wrong-result/remove_empty-counts',
+                                    'kept %r, the vectors with a non-zero '
+                                    'cell are %r; %r' % (got, want, desc))
+                for i, c in zip(short_ids, order):
+                    if c and np.count_nonzero(
+                            res.data(i, axis=axis, dense=True)) != c:
+                        raise Violation('C08/wrong-result/remove_empty-'
+                                        'counts', 'vector %r changed; %r' %
+                                        (i, desc))
+                if res.shape[0 if axis == 'sample' else 1] != L:
+                    raise Violation('C08/wrong-result/remove_empty-counts',
+                                    'the other axis changed: %r; %r' %
+                                    (res.shape, desc))
+                ctx.count('remove_empty_at_count_limits')
         ctx.case(desc, True)
 
 
